@@ -277,6 +277,106 @@ def burst2beat_contract(cfg):
     return c
 
 
+# ---- native read-modify-write scenarios (bounded) ---------------------------------------------------------------------------
+
+def _native_rmw(burst, size, beats, rmw=True):
+    """beats: list of (data16, strb2); one write burst at byte address 0, then a read of word 0"""
+    from migen.sim import run_simulation
+    axi = LiteDRAMAXIPort(data_width=16, address_width=6, id_width=1)
+    port = LiteDRAMNativePort("both", 5, 16)
+    class H(Module):
+        def __init__(self):
+            self.submodules.br = LiteDRAMAXI2Native(axi, port, w_buffer_depth=4, r_buffer_depth=4, with_read_modify_write=rmw)
+    h = H()
+    mem = {0: 0x68f7, 1: 0x1234}
+    res = {}
+    def master():
+        yield axi.b.ready.eq(1); yield axi.r.ready.eq(1)
+        yield axi.aw.valid.eq(1); yield axi.aw.addr.eq(0); yield axi.aw.burst.eq(burst); yield axi.aw.len.eq(len(beats) - 1); yield axi.aw.size.eq(size)
+        yield
+        while not (yield axi.aw.ready): yield
+        yield axi.aw.valid.eq(0)
+        for i, (d, s) in enumerate(beats):
+            yield axi.w.valid.eq(1); yield axi.w.data.eq(d); yield axi.w.strb.eq(s); yield axi.w.last.eq(i == len(beats) - 1)
+            yield
+            while not (yield axi.w.ready): yield
+        yield axi.w.valid.eq(0)
+        for _ in range(200):
+            yield
+            if (yield axi.b.valid): break
+        yield axi.ar.valid.eq(1); yield axi.ar.addr.eq(0); yield axi.ar.burst.eq(1); yield axi.ar.len.eq(0); yield axi.ar.size.eq(1)
+        yield
+        while not (yield axi.ar.ready): yield
+        yield axi.ar.valid.eq(0)
+        for _ in range(200):
+            yield
+            if (yield axi.r.valid):
+                res["read"] = (yield axi.r.data); break
+    def memory():
+        # faithful in-order memory: commands accepted every other cycle, data phases 3 cycles later, in order
+        pend = []
+        t = 0
+        while t < 600:
+            t += 1
+            yield port.cmd.ready.eq(t % 2)
+            yield port.wdata.ready.eq(0); yield port.rdata.valid.eq(0)
+            if pend and pend[0][2] <= t:
+                kind, a, _ = pend[0]
+                if kind == "w":
+                    yield port.wdata.ready.eq(1)
+                else:
+                    yield port.rdata.valid.eq(1); yield port.rdata.data.eq(mem.get(a, 0)); pend.pop(0)
+            yield
+            if (yield port.wdata.ready) and (yield port.wdata.valid):
+                kind, a, _ = pend.pop(0)
+                d, we = (yield port.wdata.data), (yield port.wdata.we)
+                old = mem.get(a, 0)
+                mem[a] = ((d if we & 1 else old) & 0xff) | ((d if we & 2 else old) & 0xff00)
+            if (yield port.cmd.ready) and (yield port.cmd.valid):
+                pend.append(("w" if (yield port.cmd.we) else "r", (yield port.cmd.addr), t + 3))
+    run_simulation(h, [master(), memory()])
+    return res.get("read"), mem[0]
+
+
+
+RMW_SCENARIOS = {
+    "FIXED_2_beats_second_without_strobes": (0, 1, [(0x0100, 3), (0x0008, 0)], 0x0100),
+    "INCR_narrow_2_beats_inside_one_word": (1, 0, [(0x00aa, 1), (0xbb00, 2)], 0xbbaa),
+    "INCR_single_beat_partial_strobe": (1, 1, [(0x00aa, 1)], 0x68aa),
+    "INCR_2_beats_partial_strobes": (1, 1, [(0x00aa, 1), (0xbb00, 2)], 0x68aa),
+}
+
+
+def native_rmw_task(cfg, tier):
+    import json, time
+    from vc.runner import replay_path
+    res = []
+    for name, (burst, size, beats, expect) in RMW_SCENARIOS.items():
+        t0 = time.time()
+        rd, m0 = _native_rmw(burst, size, beats)
+        ok = rd == expect and m0 == expect
+        oid = "C09/AXI2Native.native[rmw=True,%s]/bounded/read_after_write_response_sees_the_written_bytes" % name
+        r = {"id": oid, "kind": "bounded", "status": "bounded-ok" if ok else "failed", "seconds": round(time.time() - t0, 2),
+             "backend": "native-simulation(migen)"}
+        if not ok:
+            path = replay_path("C09", oid)
+            json.dump({"property": "C09", "obligation": oid, "module": "contracts.c09", "kind": "pyargs", "args": {"scenario": name}},
+                      open(path, "w"), indent=1)
+            r.update(replay=path, reproduced=True, witness=dict(read=rd, memory_word=m0, expected=expect))
+        res.append(r)
+    return {"results": res}
+
+
+def replay(rp):
+    name = rp["args"]["scenario"]
+    burst, size, beats, expect = RMW_SCENARIOS[name]
+    rd, m0 = _native_rmw(burst, size, beats)
+    bad = rd != expect or m0 != expect
+    print("replay %s: %s (read %s, memory %s, expected %s)" % (rp["obligation"], "VIOLATED on current tree" if bad else "not violated on current tree",
+                                                               rd, m0, expect))
+    return 1 if bad else 0
+
+
 def tasks(tier):
     out = []
     q = tier == "quick"
@@ -299,4 +399,5 @@ def tasks(tier):
         modes = ["bounded", "difftest"] + (["cover"] if sc == "single" else [])
         out.append(dict(fn="axi_contract", cfg=cfg, modes=modes, depth=d, weight=30, timeout_ms=2400000,
                         difftest_cycles=40, oneshot=one, search_depth=d))
+    out.append(dict(kind="custom", fn="native_rmw_task", cfg={}, weight=5))
     return out
